@@ -193,7 +193,12 @@ def build_dataset(name, opts, p):
         for lab, arr in cols + extra:
             d.add_component(Component(arr), lab)
         for lab, arr in catcols:
-            d.add_component(CategoricalComponent(arr), lab)
+            if lab == 'k':
+                # explicit category order that is NOT the sorted default (a permutation of the values present)
+                order = sorted(set(arr.ravel().tolist()))[::-1]
+                d.add_component(CategoricalComponent(arr, categories=np.array(order)), lab)
+            else:
+                d.add_component(CategoricalComponent(arr), lab)
     else:
         d = load_file_backed(name, backing, cols + extra, catcols, p)
         if opts.get('coords') not in (None, 'none'):
